@@ -26,10 +26,14 @@ import types
 
 from traits.api import (
     Any, Array, Bool, Bytes, Callable, CBool, CBytes, CComplex, CFloat, CInt, Complex, CStr, CTrait,
-    Dict, Either, Enum, Float, Instance, Int, List, Map, Module, Range, Set, Str, Supports, This,
-    Trait, TraitError, Tuple, Union,
+    AdaptsTo, Dict, Either, Enum, Float, Instance, Int, List, Map, Module, Range, Set, Str, Supports,
+    This, Trait, TraitError, Tuple, Union,
 )
-from traits.adaptation.api import AdaptationManager, set_global_adaptation_manager
+from traits.trait_handlers import TraitMap
+from traits.adaptation.api import (
+    AdaptationManager, get_global_adaptation_manager, reset_global_adaptation_manager,
+    set_global_adaptation_manager,
+)
 
 from vf.util import same as _same, short
 from vf.monitors import _c03_lattice as LAT
@@ -75,14 +79,18 @@ META = {
                   "mixed_compound_specs": 12, "tuple_law_evaluations": 7000,
                   "tuple_law_accepts": 450, "alone_validations": 70000,
                   "py_nonTE_c_TE_allowed": 250, "converted_results": 8000,
-                  "nested_slow_before_fast_specs": 14, "nested_slow_wins_over_later_fast": 120},
+                  "nested_slow_before_fast_specs": 14, "nested_slow_wins_over_later_fast": 120,
+                  "manager-swapped_discriminating_accepts": 15, "manager-swapped_discriminating_rejects": 12,
+                  "map-mutated_discriminating_accepts": 75, "map-mutated_discriminating_rejects": 50},
         "thorough": {"evaluations": 1000000, "fast_descriptor_specs": 2500, "both_accept": 350000,
                      "both_reject": 650000, "compound_law_evaluations": 850000,
                      "compound_accept_via_nonfirst": 180000, "compound_accept_via_slow": 8000,
                      "mixed_compound_specs": 400, "tuple_law_evaluations": 180000,
                      "tuple_law_accepts": 33000, "alone_validations": 2200000,
                      "py_nonTE_c_TE_allowed": 6000, "converted_results": 250000,
-                     "nested_slow_before_fast_specs": 250, "nested_slow_wins_over_later_fast": 2000},
+                     "nested_slow_before_fast_specs": 250, "nested_slow_wins_over_later_fast": 2000,
+                     "manager-swapped_discriminating_accepts": 15, "manager-swapped_discriminating_rejects": 12,
+                     "map-mutated_discriminating_accepts": 75, "map-mutated_discriminating_rejects": 50},
     },
     "assumptions": [
         "the handler's Python `validate` method is the specification of the fast path (the "
@@ -94,6 +102,11 @@ META = {
         "compound or count as a rejection (the statement is silent); both are accepted",
         "validators are pure: lattice values are stateless and are shared by both paths",
     ],
+    "history_strata": "adapt-swap:* (adapting traits defined and used once, then the global "
+                      "AdaptationManager is replaced via set_/reset_global_adaptation_manager or gets a "
+                      "late registration, offers differing between the managers) and map-live:* (Map / "
+                      "TraitMap defined over a dict that the harness then mutates: keys added, removed); "
+                      "violations there carry the sub-check suffix @manager-swapped / @map-mutated",
     "exhaustive_parts": "every catalogue configuration and every fixed compound is run against "
                         "every lattice value (no sampling inside a configuration)",
 }
@@ -158,6 +171,7 @@ SIMPLE = {
     "CInt": CInt, "CFloat": CFloat, "CComplex": CComplex, "CStr": CStr, "CBytes": CBytes,
     "CBool": CBool, "Module": Module, "Any": Any,
 }
+LIVE_DICTS = []
 DEFAULTS = {"none": None, "0": 0, "0.0": 0.0, "''": "", "1": 1, "yes": "yes", "True": True,
             "b''": b"", "0j": 0j, "a": "a"}
 
@@ -186,6 +200,18 @@ def mk(spec):
         return Instance(CLASSES[cname], allow_none=allow_none, adapt=adapt, **kw)
     if k == "Supports":
         return Supports(CLASSES[spec[1]], allow_none=spec[2])
+    if k == "AdaptsTo":
+        return AdaptsTo(CLASSES[spec[1]], allow_none=spec[2])
+    if k == "MapLive":
+        # the mapping stays reachable by the harness, which mutates it after
+        # the trait has been defined (registry pattern)
+        d = dict(MAPS[spec[1]])
+        LIVE_DICTS.append(d)
+        return Map(d)
+    if k == "TraitMapLive":
+        d = dict(MAPS[spec[1]])
+        LIVE_DICTS.append(d)
+        return Trait(TraitMap(d))
     if k == "This":
         return This(allow_none=spec[1])
     if k == "Callable":
@@ -463,9 +489,14 @@ class Checker(object):
             if type(n) is int and abs(n) >= 2 ** 20:
                 self.bigidx.add(vid)
         self.accepting_classes = {}
+        self.keytag = ""       # history stratum marker, becomes part of the sub-check
+        self.hot = None        # value ids whose status the history changed
 
     def viol(self, key, b, vid, cls, v, detail, extra=None):
-        w = {"spec": b.spec, "value_id": vid, "value_class": cls, "value": short(v, 80),
+        if self.keytag:
+            sub, rest = key.split("/", 1)
+            key = "%s@%s/%s" % (sub, self.keytag, rest)
+        w = {"spec": b.spec, "history": self.keytag or None, "value_id": vid, "value_class": cls, "value": short(v, 80),
              "descriptor": short(descriptor_of(b.ct), 200)}
         if extra:
             w.update(extra)
@@ -496,9 +527,13 @@ class Checker(object):
             pn = "-"
         if c[0] == "ok":
             self.accepting_classes[(b.kind, cls)] = True
+        if self.hot is not None and vid in self.hot:
+            ctx.count("%s_discriminating_pairs" % self.keytag)
+            ctx.count("%s_discriminating_%s" % (self.keytag, "accepts" if c[0] == "ok" else "rejects"))
+            nontrivial = True
         if nontrivial or (b.kind, cls) in self.accepting_classes:
             rt = tclass(c[1]) if c[0] == "ok" else ""
-            ctx.sig("diff", b.kind, fineclass(v), oname(c), rt, pn)
+            ctx.sig("diff", self.keytag, b.kind, fineclass(v), oname(c), rt, pn)
         return c
 
     def judge_diff(self, b, vid, cls, v, c, p, law_violated):
@@ -1098,6 +1133,138 @@ def random_compound(rng, pool, weights):
     return ("Trait", rng.choice(("none", "0", "''", "0.0"))) + tuple(items)
 
 
+# --------------------------------------------------------------------------
+# history strata: the configuration's environment changes between the
+# definition (and first use) of the trait and the differential sweep
+ADAPT_SPECS = [
+    ("Instance", "X", True, "yes"), ("Instance", "X", False, "yes"),
+    ("Instance", "X", False, "default"), ("Instance", "X", True, "default", "factory"),
+    ("Supports", "X", False), ("AdaptsTo", "X", True),
+    ("Either", ("Instance", "X", False, "yes"), ("Str",)),
+    ("Either", ("Str",), ("Supports", "X", False), ("Int",)),
+    ("Either", ("Int",), ("Either", ("AdaptsTo", "X", False), ("List", ("Int",))), ("CStr",)),
+]
+# (no Tuple shapes in the history strata: the Python Tuple.validate calls the
+# members' compiled validators, so both paths would see the same history)
+ADAPT_SCENARIOS = ("set-other", "set-empty", "reset-register", "late-register",
+                   "set-other-then-back-and-forth")
+MAP_LIVE_SPECS = [
+    ("MapLive", "yesno"), ("MapLive", "keys"), ("TraitMapLive", "yesno"),
+    ("Either", ("MapLive", "yesno"), ("Int",)), ("Either", ("Float",), ("MapLive", "yesno")),
+    ("Either", ("Str",), ("Either", ("MapLive", "keys"), ("List", ("Int",))), ("CBool",)),
+    ("Either", ("MapLive", "one"), ("Enum", "ab")),
+]
+MAP_SCENARIOS = ("add", "remove", "add+remove")
+
+
+def _manager(*sources):
+    m = AdaptationManager()
+    for src in sources:
+        m.register_factory(LAT.XAdapter, src, LAT.X)
+    return m
+
+
+def _adaptable(manager, v):
+    try:
+        return manager.adapt(v, LAT.X, None) is not None
+    except Exception:
+        return False
+
+
+def adapt_swap_case(ctx, ck, scen, nder):
+    """Instance(adapt=...)/Supports/AdaptsTo traits are defined and validated
+    once through the compiled path; then the global AdaptationManager is
+    replaced (or gets a late registration) so that some values are adaptable
+    under only one of the two managers; then the usual sweep."""
+    if not ctx.begin("adapt-swap:%s" % scen, {"scenario": scen, "specs": ADAPT_SPECS}):
+        return
+    original = get_global_adaptation_manager()
+    try:
+        base = _manager(LAT.Src)
+        set_global_adaptation_manager(base)
+        builts = [Built(s, None) for s in ADAPT_SPECS]
+        warm = [e for e in ck.values if e[1] in ("adaptable", "adaptable.alt", "none", "hastraits")]
+        for b in builts:
+            for vid, cls, v in warm:
+                outcome(b.ct.validate, ck.obj, v)
+                ctx.count("history_warmup_validations")
+        before = {vid: _adaptable(base, v) for vid, cls, v in ck.values}
+        if scen == "set-other":
+            set_global_adaptation_manager(_manager(LAT.Src2))
+        elif scen == "set-empty":
+            set_global_adaptation_manager(AdaptationManager())
+        elif scen == "reset-register":
+            reset_global_adaptation_manager()
+            get_global_adaptation_manager().register_factory(LAT.XAdapter, LAT.Src2, LAT.X)
+        elif scen == "late-register":
+            base.register_factory(LAT.XAdapter, LAT.Src2, LAT.X)
+        else:
+            other = _manager(LAT.Src2)
+            for m in (other, base, other):
+                set_global_adaptation_manager(m)
+                for b in builts[:3]:
+                    for vid, cls, v in warm:
+                        outcome(b.ct.validate, ck.obj, v)
+        now = get_global_adaptation_manager()
+        ck.hot = {vid for vid, cls, v in ck.values if _adaptable(now, v) != before[vid]}
+        ck.keytag = "manager-swapped"
+        for i, b in enumerate(builts):
+            ctx.count("specs")
+            ctx.count("manager-swapped_specs")
+            ctx.count("pairs", ck.run_spec(b, ctx.rng("adapt-swap", scen, i), nder))
+    finally:
+        ck.keytag, ck.hot = "", None
+        set_global_adaptation_manager(original)
+        ctx.end()
+
+
+def map_live_case(ctx, ck, scen, nder):
+    """Map traits are defined over a dict the harness keeps (and validated
+    once); keys are then added to / removed from that dict; then the sweep."""
+    if not ctx.begin("map-live:%s" % scen, {"scenario": scen, "specs": MAP_LIVE_SPECS}):
+        return
+    try:
+        del LIVE_DICTS[:]
+        builts = [Built(s, None) for s in MAP_LIVE_SPECS]
+        dicts = list(LIVE_DICTS)
+        for b in builts:
+            for vid, cls, v in ck.values[:40]:
+                outcome(b.ct.validate, ck.obj, v)
+                ctx.count("history_warmup_validations")
+        hot = set()
+        for d in dicts:
+            snapshot = dict(d)
+            if "add" in scen:
+                d["abc"] = 10
+                d[7] = 11
+                d[(1, 2)] = 12
+                d[0.5] = 13
+            if "remove" in scen:
+                for k in ("yes", 1, None, "a"):
+                    d.pop(k, None)
+            for vid, cls, v in ck.values:
+                try:
+                    a = v in snapshot
+                except Exception:
+                    a = False
+                try:
+                    z = v in d
+                except Exception:
+                    z = False
+                if a != z:
+                    hot.add(vid)
+        ck.hot = hot
+        ck.keytag = "map-mutated"
+        for i, b in enumerate(builts):
+            ctx.count("specs")
+            ctx.count("map-mutated_specs")
+            ctx.count("pairs", ck.run_spec(b, ctx.rng("map-live", scen, i), nder))
+    finally:
+        ck.keytag, ck.hot = "", None
+        del LIVE_DICTS[:]
+        ctx.end()
+
+
 def setup_adaptation():
     mgr = AdaptationManager()
     mgr.register_factory(LAT.XAdapter, LAT.Src, LAT.X)
@@ -1156,6 +1323,13 @@ def run(ctx):
     for i, spec in enumerate(nested_mixed_compounds()):
         if ctx.mine(i + 3):
             one("nested:%d" % i, spec, None, ("nested", i))
+    # ---- history strata (own keys: sub-check@history/...) ------------------------------
+    for i, scen in enumerate(ADAPT_SCENARIOS):
+        if ctx.mine(i + 7):
+            adapt_swap_case(ctx, ck, scen, 16)
+    for i, scen in enumerate(MAP_SCENARIOS):
+        if ctx.mine(i + 13):
+            map_live_case(ctx, ck, scen, 16)
     # ---- seeded random compounds -------------------------------------------------
     pool_w = member_pool()
     pool = [p for p, _ in pool_w]
